@@ -1,9 +1,10 @@
 import Emboss.Model.ViewObs
+import Emboss.Model.Synth
 import Driver.Util
 /-!
 Line-protocol driver `model_c01` for C01 / C04 / C20 (shared).
 
-  IR <sexpr>                                  load a module (harness/lib/irpack.py) -> `ok <n>` | `bad-ir`
+  IR <sexpr>      load a module (harness/lib/irpack.py) -> `ok <n> wf=<moduleWF> synth=<#sizeIsSynth> fuel=<#fuelOK>` | `bad-ir`
   OBS <Struct> <params…> <hex|->              -> the observation line cppdrv prints for the real code
   EQ  <Struct> <params…> <hexA> <hexB>        -> `EQ a<ok> b<ok> e<..> r<..>` (e/r only when both Ok)
   CP  <Struct> <params…> <hexSrc> <hexDst>    -> `CP t<0|1> <hexDst'> <hexSrc'>`
@@ -177,7 +178,10 @@ def handle (st : State) (line : String) : State × String :=
     match parseSx (tokenize (" ".intercalate rest)) >>= dModule with
     | some m =>
       let oks := (m.structs.filter (fun sd => fuelOK m fuel sd)).map (·.name)
-      ({ m := m, okStructs := oks }, "ok " ++ toString m.structs.length)
+      ({ m := m, okStructs := oks },
+        "ok " ++ toString m.structs.length ++ " wf=" ++ b01 (moduleWF m) ++
+        " synth=" ++ toString (m.structs.filter sizeIsSynth).length ++
+        " fuel=" ++ toString oks.length)
     | none => (st, "bad-ir")
   | op :: name :: args =>
     match st.m.find name with
